@@ -51,7 +51,7 @@ type FileWrite struct {
 type Step struct {
 	// Cwd (run steps): the working directory of the process while spok runs — one of three scratch
 	// directories beside the project. Where spok is started from has no bearing on the project's cache.
-	Cwd int `json:"cwd,omitempty"`
+	Cwd     int            `json:"cwd,omitempty"`
 	Op      string         `json:"op"` // write revert delete run rmcache
 	File    string         `json:"file,omitempty"`
 	Content string         `json:"content,omitempty"`
@@ -66,6 +66,10 @@ type Step struct {
 
 // CacheCase is a program, an initial tree and a history.
 type CacheCase struct {
+	// Junk: after the first run step, files that an interrupted or foreign process may have left in
+	// the cache directory appear there (cache.json.tmp, cache.json.bak, cache.json~, lock); they are
+	// nobody's business and change nothing
+	Junk bool `json:"junk,omitempty"`
 	// Dir names the directory holding the spokfile ("" = proj)
 	Dir   string            `json:"dir,omitempty"`
 	Tasks []TaskSpec        `json:"tasks"`
@@ -441,6 +445,11 @@ func execCache(id string, s *ev.Shard, root string, c CacheCase) *rp.Fail {
 				return &rp.Fail{Sig: "harness", Msg: rr.err.Error()}
 			}
 			runs++
+			if c.Junk && runs == 1 {
+				for _, j := range []string{"cache.json.tmp", "cache.json.bak", "cache.json~", "lock", ".cache.json.swp"} {
+					_ = os.WriteFile(filepath.Join(root, ".spok", j), []byte("{}"), 0o644)
+				}
+			}
 			if runs >= 2 && fileActSinceRun {
 				fileActsBetween++
 			}
